@@ -5,7 +5,7 @@
 From Coq Require Import Extraction ExtrOcamlBasic.
 From SB Require Import Base.Prelude Gen.Generated Model.Codec Model.Colors Spec.CodecSpec
   Model.Crc Model.Container Spec.CrcSpec Spec.ContainerSpec Model.Loaders Model.Rth Spec.RthSpec
-  Base.Num Model.Poly Model.Traj Spec.BezierSpec Spec.TrajSpec Model.Yaw Spec.YawSpec Model.Light Spec.LightSpec.
+  Base.Num Model.Poly Model.Traj Spec.BezierSpec Spec.TrajSpec Model.Yaw Spec.YawSpec Model.Light Spec.LightSpec Base.F32 Model.Utils Model.Builder Model.Buffer.
 
 Extraction Language OCaml.
 
@@ -26,4 +26,9 @@ Extraction "sbmodel.ml"
   yaw_init yaw_is_empty yseek ycursor0 ylanding_cursor yaw_of yaw_rate_of yaw_total_duration_msec
   yaw_tol yaw_tol_at yaw_spec rate_spec encode_yaw wf_syaw
   (* C02 C09 *)
-  player_fresh light_seek obs_color obs_pyro obs_ended obs_next state_at spec_color spec_pyro spec_ended spec_next decode.
+  player_fresh light_seek obs_color obs_pyro obs_ended obs_next state_at spec_color spec_pyro spec_ended spec_next decode
+  (* C16 C12 C20 *)
+  builder_init set_start_position append_line hold_position_for finish rth_to_trajectory
+  travel_time scale_update msec_of_sec interval_expand rnd32 fadd fsub fmul fdiv fsqrt position_at
+  interp_rgb rgbw_reference buf_init buf_init_from_bytes buf_init_view buf_resize buf_clear buf_prune buf_fill
+  buf_append buf_extend_zeros bf_size.
